@@ -138,7 +138,7 @@ def mapper(ctx):
         if ok:
             f = dict(t[3])
             tr = set(alts(f.get('transparent')))
-            ok = tr == {('field', ('param', 2, 'options'), 'failure'), ('field', ('param', 2, 'options'), 'transparent')} and \
+            ok = len(tr) == 2 and any(is_param_path(x, 2, ['failure']) for x in tr) and any(is_param_path(x, 2, ['transparent']) for x in tr) and \
                 is_param_path(f.get('failure'), 2, ['failure'])
             uo = q.calls(nb, 'std::option::Option::unwrap_or')
             ok = ok and len(uo) == 1 and is_param_path(q.arg_terms(uo[0])[0], 2, ['transparent']) and is_param_path(q.arg_terms(uo[0])[1], 2, ['failure'])
